@@ -151,6 +151,7 @@ def rate_converter(ctx):
         sers = [o for o in v.d.instances.values() if o.cls == "Serializer"]
         dess = [o for o in v.d.instances.values() if o.cls == "Deserializer"]
         cmd_maps = {}
+        not_understood = []
         for o in sers:
             i, out = o.kwargs.get("i"), o.kwargs.get("o")
             if isinstance(i, Op) and i.op == "Cat":
@@ -158,6 +159,7 @@ def rate_converter(ctx):
                 mo = re.match(r"^phy_dfi\.p(\d+)\.(\w+)$", key(out))
                 if None in ks or not mo:
                     ob2.unknown("%s: serializer %s ports not understood" % (tag, o))
+                    not_understood.append(str(o))
                     continue
                 pi, nm = int(mo.group(1)), mo.group(2)
                 cmd_maps.setdefault(nm, {})[pi] = [k[0] for k in ks]
@@ -180,6 +182,27 @@ def rate_converter(ctx):
                 ob2.instance("%s %s map" % (tag, nm), mp)
         if len(cmd_maps) < 8:
             ob2.unknown("%s: only %d command signals are serialised" % (tag, len(cmd_maps)))
+        # completeness: every command field the DFI phase layout declares goes through its own per-phase serializer (a level held in one slow-clock register is
+        # not "delivered exactly once in phase order": per-phase values of later slots are lost)
+        cmd_fields = []
+        fn_ = ctx.repo.module(DFI).functions.get("phase_cmd_description") if ctx.repo.module(DFI) is not None else None
+        if fn_ is not None:
+            for n_ in ast.walk(fn_):
+                if isinstance(n_, ast.Tuple) and n_.elts and isinstance(n_.elts[0], ast.Constant) and isinstance(n_.elts[0].value, str) and len(n_.elts) == 3:
+                    cmd_fields.append(n_.elts[0].value)
+        if not_understood:
+            pass          # another serialisation scheme (e.g. one shared serializer per PHY phase): not decided
+        elif ob2.need(len(cmd_fields) >= 6, "DFI command layout (phase_cmd_description) not found"):
+            for nm in cmd_fields:
+                if nm in cmd_maps:
+                    continue
+                other = [l for l in v.leaves if l.inst == "" and l.kind == "assign" and re.match(r"^phy_dfi\.p\d+\.%s$" % re.escape(nm), key(l.target))]
+                if other:
+                    ob2.refute("cmd-not-serialised:%s:%s" % (tag, nm), "%s: the PHY-side %s is driven by `%s`, not by a per-phase serializer of the slow phases' %s: the values the "
+                               "controller puts on the later slots of a slow cycle never reach the PHY (or are stretched over the whole cycle)" % (tag, nm, str(other[0])[:100], nm),
+                               other[0].loc)
+                else:
+                    ob2.refute("cmd-not-serialised:%s:%s" % (tag, nm), "%s: the DFI command field %s is not carried to the PHY at all" % (tag, nm), None)
         # data
         for l in v.leaves:
             if l.inst != "" or l.kind != "assign":
